@@ -15,6 +15,7 @@ Fixpoint obj_eqf (fuel : nat) (a b : obj) {struct fuel} : bool :=
   match a, b with
   | OInt x, OInt y => Z.eqb x y | OFloat x, OFloat y => Z.eqb x y | OBytes x, OBytes y => zl_eqb x y
   | OText x, OText y => zl_eqb x y | OBool x, OBool y => Bool.eqb x y | ONone, ONone => true
+  | OPending x, OPending y => Nat.eqb x y
   | OList x, OList y | OTuple x, OTuple y => list_eqbw eq x y
   | OSet x, OSet y | OFset x, OFset y =>          (* as sets *)
       forallb (fun e => existsb (eq e) y) x && forallb (fun e => existsb (fun e' => eq e' e) x) y
